@@ -28,7 +28,7 @@ def impl_write(case, d=None):
     mints = decode_msgs(case[1:])
     msgs = [mido.Message(canon.kwargs_of(m)[0], **canon.kwargs_of(m)[1]) for m in mints]
     d = d or SCRATCH
-    path = os.path.join(d, 'w%d_%d.syx' % (os.getpid(), hash(tuple(case)) & 0xffffff))
+    path = os.path.join(d, 'w%d.syx' % os.getpid())          # one path, written over and over: what is read is what the file holds NOW
     fail = None
     try:
         mido.write_syx_file(path, msgs, plaintext=plaintext)
@@ -39,20 +39,20 @@ def impl_write(case, d=None):
         have = [canon.msg_ints(m) for m in back]
         if have != want:
             fail = ('roundtrip', 'write(plaintext=%r) %r then read gave %r' % (plaintext, msgs, back))
+        else:
+            # the list belongs to its caller: emptied, it must not empty the next reading of the same file
+            del back[:]
+            if [canon.msg_ints(m) for m in mido.read_syx_file(path)] != want:
+                fail = ('result-shared', 'after the list returned by read_syx_file was emptied by its caller, reading the unchanged file again gives something else (%r written)' % (msgs,))
     except Exception as e:  # noqa: BLE001
         out = [-1, core.exn_code(e)]
         fail = ('raises:' + type(e).__name__, 'write/read of %r raised %r' % (msgs, e))
-    finally:
-        try:
-            os.remove(path)
-        except OSError:
-            pass
     return out, fail, 'write:%s:%d' % ('text' if plaintext else 'bin', min(len(mints), 4))
 
 
 def impl_read(case):
     import mido
-    path = os.path.join(SCRATCH, 'r%d_%d.syx' % (os.getpid(), hash(tuple(case)) & 0xffffff))
+    path = os.path.join(SCRATCH, 'r%d.syx' % os.getpid())    # one path, written over and over (files of equal size within one second included)
     fail = None
     with open(path, 'wb') as f:
         f.write(bytes(case))
@@ -60,6 +60,12 @@ def impl_read(case):
         ms = mido.read_syx_file(path)
         out = [0] + pc.msgs_out(ms)
         tag = 'read:ok'
+        kept = list(ms)
+        ms.reverse()
+        del ms[1:]
+        if [m.bytes() for m in mido.read_syx_file(path)] != [m.bytes() for m in kept]:
+            fail = ('result-shared', 'after the list returned by read_syx_file was edited by its caller, reading the unchanged file %r again gives something else' % (bytes(case)[:40],))
+        ms = kept
         if not all(m.type == 'sysex' for m in ms):
             fail = ('non-sysex-returned', 'read of %r returned %r' % (bytes(case), ms))
         elif case and case[0] != 0xf0:
@@ -105,8 +111,6 @@ def impl_read(case):
         out = [-1, core.exn_code(e)]
         tag = 'read:other'
         fail = ('read-raises:' + type(e).__name__, 'read of %r raised %r' % (bytes(case), e))
-    finally:
-        os.remove(path)
     return out, fail, tag
 
 
@@ -116,8 +120,8 @@ SCRATCH = None
 def job(j):
     tag, cases = j
     if tag == 'write':
-        return tag, core.eval_cases(COMP_WRITE, cases, impl_write)
-    return tag, core.eval_cases(COMP_READ, cases, impl_read)
+        return tag, core.eval_cases(COMP_WRITE, cases, impl_write, repeat=30)
+    return tag, core.eval_cases(COMP_READ, cases, impl_read, repeat=30)
 
 
 def layout_text(rng, bs, bad=False):
